@@ -15,21 +15,62 @@ pub type RawErrno = i32;
 pub struct Ofd { pub id: int, pub cloexec: bool }
 pub type Table = Map<Fd, Ofd>;
 
-/// model of enumset::EnumSet<FdFlag> (one flag exists)
-pub struct EnumSet<T> { pub verif_has: bool, pub verif_t: Option<T> }
+/// model of enumset::EnumSet<T>: the set of flags as a ghost view (ASSUMED, as every fact about this model of the
+/// enumset crate)
+pub struct EnumSet<T> { pub verif_t: Option<T> }
+pub uninterp spec fn flags_of<T>(s: EnumSet<T>) -> Set<T>;
 impl<T> EnumSet<T> {
-    pub fn empty() -> (r: EnumSet<T>) ensures !r.verif_has { EnumSet { verif_has: false, verif_t: None } }
+    #[verifier::external_body]
+    pub fn empty() -> (r: EnumSet<T>) ensures flags_of(r) == Set::<T>::empty() { unimplemented!() }
 }
+/// `A | B` on two flags is the set of the two (enumset's BitOr); `enum_set!(A | B)` is the same set as a constant
+impl core::ops::BitOr for OpenFlag {
+    type Output = EnumSet<OpenFlag>;
+    #[verifier::external_body]
+    fn bitor(self, rhs: OpenFlag) -> (r: EnumSet<OpenFlag>)
+        ensures flags_of(r) == set![self, rhs]
+    { unimplemented!() }
+}
+impl vstd::std_specs::ops::BitOrSpecImpl<OpenFlag> for OpenFlag {
+    open spec fn obeys_bitor_spec() -> bool { false }
+    open spec fn bitor_req(self, rhs: OpenFlag) -> bool { true }
+    uninterp spec fn bitor_spec(self, rhs: OpenFlag) -> EnumSet<OpenFlag>;
+}
+impl From<OpenFlag> for EnumSet<OpenFlag> {
+    #[verifier::external_body]
+    fn from(f: OpenFlag) -> (r: EnumSet<OpenFlag>) ensures flags_of(r) == set![f] { unimplemented!() }
+}
+impl vstd::std_specs::convert::FromSpecImpl<OpenFlag> for EnumSet<OpenFlag> {
+    open spec fn obeys_from_spec() -> bool { false }
+    uninterp spec fn from_spec(f: OpenFlag) -> EnumSet<OpenFlag>;
+}
+/// placeholder for the permission bits of a new file (only handed on)
+pub struct Mode { pub verif_bits: u32 }
+impl Mode {
+    pub const ALL_READ: Mode = Mode { verif_bits: 0o444 };
+    pub const ALL_WRITE: Mode = Mode { verif_bits: 0o222 };
+    #[verifier::external_body]
+    pub const fn union(self, other: Mode) -> Mode { Mode { verif_bits: self.verif_bits | other.verif_bits } }
+}
+/// placeholder for the result of fstat: all the code asks is whether the file is a regular file
+pub struct FileStat { pub verif_regular: bool }
+impl FileStat {
+    pub fn is_regular_file(&self) -> (r: bool) ensures r == self.verif_regular { self.verif_regular }
+}
+/// how an open file description came into being: the access mode and flags of the open() that made it
+pub struct How { pub access: OfdAccess, pub flags: Set<OpenFlag> }
 impl EnumSet<FdFlag> {
-    pub open spec fn has_cloexec(&self) -> bool { self.verif_has }
-    pub fn contains(&self, f: FdFlag) -> (r: bool) ensures r == self.has_cloexec() { self.verif_has }
+    pub open spec fn has_cloexec(&self) -> bool { flags_of(*self).contains(FdFlag::CloseOnExec) }
+    #[verifier::external_body]
+    pub fn contains(&self, f: FdFlag) -> (r: bool) ensures r == flags_of(*self).contains(f) { unimplemented!() }
 }
 impl From<FdFlag> for EnumSet<FdFlag> {
-    fn from(f: FdFlag) -> (r: EnumSet<FdFlag>) ensures r.has_cloexec() { EnumSet { verif_has: true, verif_t: None } }
+    #[verifier::external_body]
+    fn from(f: FdFlag) -> (r: EnumSet<FdFlag>) ensures flags_of(r) == set![f] { unimplemented!() }
 }
 impl vstd::std_specs::convert::FromSpecImpl<FdFlag> for EnumSet<FdFlag> {
-    open spec fn obeys_from_spec() -> bool { true }
-    open spec fn from_spec(f: FdFlag) -> EnumSet<FdFlag> { EnumSet { verif_has: true, verif_t: None } }
+    open spec fn obeys_from_spec() -> bool { false }
+    uninterp spec fn from_spec(f: FdFlag) -> EnumSet<FdFlag>;
 }
 
 pub trait Fds: Sized {
@@ -38,6 +79,41 @@ pub trait Fds: Sized {
     /// the state; the code under contract ignores such errors where it restores)
     spec fn close_fails(&self, fd: Fd) -> bool;
     spec fn dup2_fails(&self, from: Fd, to: Fd) -> bool;
+    /// per open file description: how it was opened, and whether the file behind it is a regular file
+    spec fn how(&self, id: int) -> How;
+    spec fn regular(&self, id: int) -> bool;
+
+    /// open(): a descriptor that was not open refers to a NEW open file description made with this access mode and
+    /// these flags; FD_CLOEXEC as asked; a failure changes nothing
+    fn open(&mut self, path: &CString, access: OfdAccess, flags: EnumSet<OpenFlag>, mode: Mode) -> (r: Result<Fd, Errno>)
+        ensures
+            match r {
+                Ok(fd) => !old(self).table().contains_key(fd) && final(self).table().contains_key(fd)
+                    && final(self).table() == old(self).table().insert(fd, final(self).table()[fd])
+                    && final(self).table()[fd].cloexec == flags_of(flags).contains(OpenFlag::CloseOnExec)
+                    && (forall|fd2: Fd| old(self).table().contains_key(fd2) ==> old(self).table()[fd2].id != final(self).table()[fd].id)
+                    && final(self).how(final(self).table()[fd].id) == (How { access, flags: flags_of(flags) })
+                    && (forall|id: int| id != final(self).table()[fd].id ==> final(self).how(id) == old(self).how(id) && final(self).regular(id) == old(self).regular(id)),
+                Err(_) => final(self).table() == old(self).table() && (forall|id: int| final(self).how(id) == old(self).how(id) && final(self).regular(id) == old(self).regular(id)),
+            },
+            forall|fd2: Fd| final(self).close_fails(fd2) == old(self).close_fails(fd2),
+            forall|f2: Fd, t2: Fd| final(self).dup2_fails(f2, t2) == old(self).dup2_fails(f2, t2);
+    /// an anonymous temporary file, open for reading and writing
+    fn open_tmpfile(&mut self, parent_dir: &TmpDir) -> (r: Result<Fd, Errno>)
+        ensures
+            match r {
+                Ok(fd) => !old(self).table().contains_key(fd) && final(self).table().contains_key(fd) && !final(self).table()[fd].cloexec
+                    && final(self).table() == old(self).table().insert(fd, final(self).table()[fd]),
+                Err(_) => final(self).table() == old(self).table(),
+            },
+            forall|id: int| (forall|fd2: Fd| old(self).table().contains_key(fd2) ==> old(self).table()[fd2].id != id) || (final(self).how(id) == old(self).how(id) && final(self).regular(id) == old(self).regular(id)),
+            forall|fd2: Fd| final(self).close_fails(fd2) == old(self).close_fails(fd2),
+            forall|f2: Fd, t2: Fd| final(self).dup2_fails(f2, t2) == old(self).dup2_fails(f2, t2);
+    fn fstat(&self, fd: Fd) -> (r: Result<FileStat, Errno>)
+        ensures r is Ok <==> self.table().contains_key(fd), r matches Ok(st) ==> st.verif_regular == self.regular(self.table()[fd].id);
+    /// fcntl(F_GETFL) access mode: EBADF exactly for a descriptor that is not open
+    fn ofd_access(&self, fd: Fd) -> (r: Result<OfdAccess, Errno>)
+        ensures r is Ok <==> self.table().contains_key(fd), r matches Ok(a) ==> a == self.how(self.table()[fd].id).access;
 
     /// fcntl(F_GETFD): EBADF exactly for a descriptor that is not open
     fn fcntl_getfd(&self, fd: Fd) -> (r: Result<EnumSet<FdFlag>, Errno>)
@@ -50,6 +126,7 @@ pub trait Fds: Sized {
             r is Err <==> old(self).close_fails(fd),
             r is Ok ==> final(self).table() == old(self).table().remove(fd),
             r is Err ==> final(self).table() == old(self).table(),
+            forall|id: int| final(self).how(id) == old(self).how(id) && final(self).regular(id) == old(self).regular(id),
             forall|fd2: Fd| final(self).close_fails(fd2) == old(self).close_fails(fd2),
             forall|f2: Fd, t2: Fd| final(self).dup2_fails(f2, t2) == old(self).dup2_fails(f2, t2);
     /// fcntl(F_DUPFD / F_DUPFD_CLOEXEC): a free descriptor >= to_min now refers to the same open file description;
@@ -61,6 +138,7 @@ pub trait Fds: Sized {
                     && final(self).table() == old(self).table().insert(new, Ofd { id: old(self).table()[from].id, cloexec: flags.has_cloexec() }),
                 Err(e) => final(self).table() == old(self).table() && (e == Errno::EBADF <==> !old(self).table().contains_key(from)),
             },
+            forall|id: int| final(self).how(id) == old(self).how(id) && final(self).regular(id) == old(self).regular(id),
             forall|fd2: Fd| final(self).close_fails(fd2) == old(self).close_fails(fd2),
             forall|f2: Fd, t2: Fd| final(self).dup2_fails(f2, t2) == old(self).dup2_fails(f2, t2);
     /// dup2(): `to` now refers to the open file description of `from`, FD_CLOEXEC clear (what `to` referred to is
@@ -72,6 +150,7 @@ pub trait Fds: Sized {
                 Ok(new) => new == to && final(self).table() == (if from == to { old(self).table() } else { old(self).table().insert(to, Ofd { id: old(self).table()[from].id, cloexec: false }) }),
                 Err(_) => final(self).table() == old(self).table(),
             },
+            forall|id: int| final(self).how(id) == old(self).how(id) && final(self).regular(id) == old(self).regular(id),
             forall|fd2: Fd| final(self).close_fails(fd2) == old(self).close_fails(fd2),
             forall|f2: Fd, t2: Fd| final(self).dup2_fails(f2, t2) == old(self).dup2_fails(f2, t2);
 }
@@ -81,6 +160,10 @@ pub open spec fn same_failures<S: Fds>(a: S, b: S) -> bool {
 }
 /// hypothesis of the restoration clauses: closing and dup2 of valid descriptors do not fail (the code ignores their
 /// errors, and nothing could be restored if they did)
+/// nothing about existing open file descriptions changed
+pub open spec fn same_files<S: Fds>(a: S, b: S) -> bool {
+    forall|id: int| a.how(id) == b.how(id) && a.regular(id) == b.regular(id)
+}
 pub open spec fn quiet<S: Fds>(s: S) -> bool {
     &&& forall|fd: Fd| !s.close_fails(fd)
     &&& forall|f: Fd, t: Fd| !s.dup2_fails(f, t)
@@ -89,10 +172,34 @@ pub open spec fn quiet<S: Fds>(s: S) -> bool {
 pub trait Close: Fds {}
 pub trait Dup: Fds {}
 pub trait Fcntl: Fds {}
-pub trait Runtime: Fds + Close + Dup + Fcntl {}
+pub trait Open: Fds {}
+pub trait Fstat: Fds {}
+pub trait Seek: Fds {}
+pub trait WriteAll: Fds {}
+pub trait Runtime: Fds + Close + Dup + Fcntl + Open + Fstat + Seek + WriteAll {}
 
-/// struct Env reduced to the one field the functions under contract use
-pub struct Env<S> { pub system: S }
+/// the option set, reduced to the one option the openers ask for (ASSUMED contract of OptionSet::get)
+pub struct OptionSet { pub verif_noclobber: bool }
+pub enum ShellOption { Clobber, Other(u8) }
+pub use ShellOption::Clobber;
+impl OptionSet {
+    pub open spec fn noclobber(&self) -> bool { self.verif_noclobber }
+    #[verifier::external_body]
+    pub fn get(&self, option: ShellOption) -> (r: State)
+        ensures option == ShellOption::Clobber ==> (r == State::Off <==> self.noclobber())
+    { unimplemented!() }
+}
+impl vstd::std_specs::cmp::PartialEqSpecImpl for State {
+    open spec fn obeys_eq_spec() -> bool { true }
+    open spec fn eq_spec(&self, other: &State) -> bool { *self == *other }
+}
+impl vstd::std_specs::cmp::PartialEqSpecImpl for OfdAccess {
+    open spec fn obeys_eq_spec() -> bool { true }
+    open spec fn eq_spec(&self, other: &OfdAccess) -> bool { *self == *other }
+}
+
+/// struct Env reduced to the fields the functions under contract use
+pub struct Env<S> { pub system: S, pub options: OptionSet }
 pub mod yash_env { pub use super::Env; }
 
 // ---- opaque placeholders for what is only handed on -------------------------------------------------
@@ -101,7 +208,7 @@ impl Clone for Location { fn clone(&self) -> (r: Location) { Location { verif_op
 pub struct Word { pub location: Location }
 pub struct Text { pub verif_opaque: u8 }
 pub struct HereDoc { pub delimiter: Word, pub remove_tabs: bool, pub verif_content: Text }
-pub struct Field { pub verif_value: u8, pub origin: Location }
+pub struct Field { pub value: String, pub origin: Location }
 pub struct ExitStatus(pub i32);
 pub struct XTrace { pub verif_opaque: u8 }
 pub struct ExpansionError { pub verif_opaque: u8 }
@@ -109,6 +216,22 @@ pub struct ExpansionErrorCause { pub verif_opaque: u8 }
 pub struct NulError { pub verif_opaque: u8 }
 pub struct ParseIntError { pub verif_opaque: u8 }
 pub struct CString { pub verif_opaque: u8 }
+impl CString {
+    #[verifier::external_body]
+    pub fn new(s: String) -> (r: Result<CString, NulError>) { unimplemented!() }
+}
+pub struct TmpDir { pub verif_opaque: u8 }
+/// `Path::new("/tmp")`
+#[verifier::external_body]
+pub fn verif_tmp_dir() -> (r: &'static TmpDir) { unimplemented!() }
+/// `target.value == "-"` and `target.value.parse()` of copy_fd: string code, only its outcome matters here
+#[verifier::external_body]
+pub fn verif_is_hyphen(s: &String) -> (r: bool) { unimplemented!() }
+#[verifier::external_body]
+pub fn verif_parse_fd(s: &String) -> (r: Result<RawFd, ParseIntError>) { unimplemented!() }
+pub assume_specification<T, E, F: FnOnce(T) -> bool>[ Result::<T, E>::is_ok_and ](r: Result<T, E>, f: F) -> (b: bool)
+    requires r matches Ok(v) ==> f.requires((v,)),
+    ensures r is Err ==> !b, r matches Ok(v) ==> f.ensures((v,), b);
 
 // derived PartialEq / Copy of Fd and Errno (ASSUMED structural)
 impl vstd::std_specs::cmp::PartialEqSpecImpl for Fd {
@@ -119,7 +242,7 @@ impl vstd::std_specs::cmp::PartialEqSpecImpl for Errno {
     open spec fn obeys_eq_spec() -> bool { true }
     open spec fn eq_spec(&self, other: &Errno) -> bool { *self == *other }
 }
-impl Errno { pub const EBADF: Errno = Errno(9); }
+impl Errno { pub const EBADF: Errno = Errno(9); pub const EEXIST: Errno = Errno(17); pub const ENOENT: Errno = Errno(2); }
 
 // `impl From<crate::expansion::Error> for Error` of the code (what `?` applies to an expansion error), ASSUMED total
 impl From<ExpansionError> for Error {
@@ -136,11 +259,11 @@ impl vstd::std_specs::convert::FromSpecImpl<ExpansionError> for Error {
 /// table as it was (a command substitution's pipe is opened and closed again inside)
 #[verifier::external_body]
 pub fn expand_word<S: Fds>(env: &mut Env<S>, word: &Word) -> (r: Result<(Field, Option<ExitStatus>), ExpansionError>)
-    ensures final(env).system.table() == old(env).system.table(), same_failures(old(env).system, final(env).system)
+    ensures final(env).system.table() == old(env).system.table(), same_failures(old(env).system, final(env).system), same_files(old(env).system, final(env).system), final(env).options == old(env).options
 { unimplemented!() }
 #[verifier::external_body]
 pub fn expand_text<S: Fds>(env: &mut Env<S>, text: &Text) -> (r: Result<(String, Option<ExitStatus>), ExpansionError>)
-    ensures final(env).system.table() == old(env).system.table(), same_failures(old(env).system, final(env).system)
+    ensures final(env).system.table() == old(env).system.table(), same_failures(old(env).system, final(env).system), same_files(old(env).system, final(env).system), final(env).options == old(env).options
 { unimplemented!() }
 #[verifier::external_body]
 pub fn trace_normal(xtrace: Option<&mut XTrace>, target_fd: Fd, operator: RedirOp, operand: &Field) { unimplemented!() }
@@ -153,28 +276,18 @@ pub fn verif_here_doc_content(here_doc: &HereDoc) -> (r: &Text) { unimplemented!
 /// opening failed), or exactly one descriptor that was not open now refers to a new open file description
 pub open spec fn opened(before: Table, after: Table, spec: FdSpec) -> bool {
     match spec {
-        FdSpec::Owned(fd) => !before.contains_key(fd) && after.contains_key(fd) && !after[fd].cloexec && after == before.insert(fd, after[fd]),
+        FdSpec::Owned(fd) => !before.contains_key(fd) && after.contains_key(fd) && after == before.insert(fd, after[fd]),
         FdSpec::Borrowed(fd) => after == before && before.contains_key(fd) && !before[fd].cloexec,
         FdSpec::Closed => after == before,
     }
 }
+/// writing the here-document text into the temporary file and rewinding it: ASSUMED to leave the table alone
 #[verifier::external_body]
-pub fn open_normal<S: Fds>(env: &mut Env<S>, operator: RedirOp, operand: Field) -> (r: Result<(FdSpec, Location), Error>)
-    ensures
-        r matches Ok(p) ==> opened(old(env).system.table(), final(env).system.table(), p.0),
-        r is Err ==> final(env).system.table() == old(env).system.table(),
-        same_failures(old(env).system, final(env).system)
+pub fn fill_content<S: Fds>(env: &mut Env<S>, fd: Fd, content: &String) -> (r: Result<(), Errno>)
+    ensures final(env).system.table() == old(env).system.table(), same_failures(old(env).system, final(env).system),
+        forall|id: int| final(env).system.how(id) == old(env).system.how(id) && final(env).system.regular(id) == old(env).system.regular(id),
+        final(env).options == old(env).options
 { unimplemented!() }
-pub mod here_doc {
-    use super::*;
-    #[verifier::external_body]
-    pub fn open_fd<S: Fds>(env: &mut Env<S>, content: String) -> (r: Result<Fd, ErrorCause>)
-        ensures
-            r matches Ok(fd) ==> opened(old(env).system.table(), final(env).system.table(), FdSpec::Owned(fd)),
-            r is Err ==> final(env).system.table() == old(env).system.table(),
-            same_failures(old(env).system, final(env).system)
-    { unimplemented!() }
-}
 
 impl Redir {
     /// the descriptor a redirection is about: the one written before the operator, or 0 / 1 by the kind of operator
@@ -190,6 +303,24 @@ impl Redir {
             },
         }
     }
+}
+
+/// XCU 2.7: how each redirection operator opens its file.  `noclobber` is the state of the option (set -C).
+pub open spec fn opens_as(op: RedirOp, noclobber: bool, h: How, regular: bool) -> bool {
+    match op {
+        RedirOp::FileIn => h == (How { access: OfdAccess::ReadOnly, flags: Set::<OpenFlag>::empty() }),
+        RedirOp::FileOut if noclobber =>
+            // never truncates: either the file was created by this very open (O_CREAT|O_EXCL), or it existed and is not a regular file
+            h == (How { access: OfdAccess::WriteOnly, flags: set![OpenFlag::Create, OpenFlag::Exclusive] })
+            || (h == (How { access: OfdAccess::WriteOnly, flags: Set::<OpenFlag>::empty() }) && !regular),
+        RedirOp::FileOut | RedirOp::FileClobber => h == (How { access: OfdAccess::WriteOnly, flags: set![OpenFlag::Create, OpenFlag::Truncate] }),
+        RedirOp::FileAppend => h == (How { access: OfdAccess::WriteOnly, flags: set![OpenFlag::Create, OpenFlag::Append] }),
+        RedirOp::FileInOut => h == (How { access: OfdAccess::ReadWrite, flags: set![OpenFlag::Create] }),
+        _ => false,
+    }
+}
+pub open spec fn is_file_op(op: RedirOp) -> bool {
+    op is FileIn || op is FileOut || op is FileClobber || op is FileAppend || op is FileInOut
 }
 
 // ---- C09 over the descriptor table -------------------------------------------------------------------
